@@ -237,13 +237,15 @@ func TestC01(t *testing.T) {
 		return out
 	}
 	item := 0
+	const compiledShard = 1 // this shard compiles the whole circuit; it takes no share of the other work
+	mine := func(i int) bool { return rec.MineExcept(i, compiledShard) }
 	leafSweep := func(base string, k, perStratum int) {
 		rn := getRunner(base, k)
 		strata := strataOf(rn)
 		r.Extra("strata:"+rn.in.Name(), fmt.Sprint(len(strata)))
 		for _, s := range strata {
 			item++
-			if !rec.Mine(item) {
+			if !mine(item) {
 				continue
 			}
 			s := s
@@ -276,7 +278,7 @@ func TestC01(t *testing.T) {
 					continue
 				}
 				item++
-				if !rec.Mine(item) {
+				if !mine(item) {
 					continue
 				}
 				p := []string{"+1", "-1", "zero", "swap"}[i%4]
@@ -294,7 +296,7 @@ func TestC01(t *testing.T) {
 		}
 		for bi, backend := range backends {
 			item++
-			if !rec.Mine(item + 3*bi + 5) {
+			if rec.ShardIdx() != (compiledShard+bi)%rec.NShards() {
 				continue
 			}
 			rn := getRunner(base, k)
@@ -325,7 +327,7 @@ func TestC01(t *testing.T) {
 	for _, p := range pairs {
 		for _, k := range []int{28, 3} {
 			item++
-			if rec.Mine(item) {
+			if mine(item) {
 				exec(t, c01Case{Base: p[0], K: k, Kind: "otherkey", Other: p[1]}, "other-circuit-key")
 			}
 		}
@@ -343,7 +345,7 @@ func TestC01(t *testing.T) {
 		if rec.Thorough() {
 			for _, e := range edits {
 				item++
-				if !rec.Mine(item) {
+				if !mine(item) {
 					continue
 				}
 				e := e
@@ -360,7 +362,7 @@ func TestC01(t *testing.T) {
 					continue
 				}
 				item++
-				if !rec.Mine(item) {
+				if !mine(item) {
 					continue
 				}
 				e := e
